@@ -157,13 +157,14 @@ def exec (op : String) (ts : List String) : Option String :=
 def recNames (r : Ref.Record) : List Ref.Name :=
   r.name :: (match r.rdata with | .ptr n => [n] | .srv _ _ _ n => [n] | _ => [])
 
-/-- the domain of the property: every label has 1..=63 bytes (the reader of escaped names
-    never yields an empty label) -/
+/-- every name of the message (owner names, PTR and SRV targets) as a label sequence -/
 def allNames (o : OutMsg) : List Ref.Name :=
   o.questions.map (fun q => labelsOf q.name) ++
     (o.answers.map (fun a => expRec a.1 a.2) ++ o.authorities.map (expRec · 0) ++
       o.additionals.map (expRec · 0)).flatMap recNames
 
+/-- the domain of the property: every label has 1..=63 bytes (the reader of escaped names
+    never yields an empty label); outside of it the encoder asserts (D10, property C15) -/
 def labelsFit (o : OutMsg) : Bool :=
   (allNames o).all fun n => n.all fun l => l.length < 64
 
@@ -262,8 +263,6 @@ def monitor (op : String) (ts impl : List String) : Option String :=
           | _ => none : Option (List Ref.Bytes × List (Option Wire.Msg))) with
         | none => some "unparsable-observation"
         | some (pkts, decs) =>
-          -- the clause-by-clause evaluation names what fails; the proven predicate
-          -- `soundCore` (conclusion of `encode_sound`) must agree with it
           okC02 o pkts decs
       | _ => some "unparsable-observation"
   | "escape" =>
